@@ -60,3 +60,39 @@ class TableLM(MixableSequentialLanguageModel):
     def mix_by_mask(self, prev_true, prev_false, mask):
         self.mixes += 1
         return {k: torch.where(mask, prev_true[k], prev_false[k]) for k in prev_true}
+
+
+class RecurrentLM(MixableSequentialLanguageModel):
+    """Small tanh-recurrent LM through the public interface. State {"h": (M, H)}; the initial hidden state
+    is a row of ``h0`` picked by ``initial_state["off"]`` (row 0 by default). The weights are buffers, so
+    they travel through state_dict / .double() / pickling like those of a trained model."""
+
+    def __init__(self, V, E, U, Wo, bo, h0):
+        super().__init__(V)
+        for name, t in (("E", E), ("U", U), ("Wo", Wo), ("bo", bo), ("h0", h0)):
+            self.register_buffer(name, t.clone())
+
+    def update_input(self, prev, hist):
+        if "h" in prev:
+            return prev
+        M = hist.flatten(1).size(1)
+        off = prev.get("off", torch.zeros(M, dtype=torch.long))
+        return {"h": self.h0[off % self.h0.size(0)]}
+
+    def calc_idx_log_probs(self, hist, prev, idx):
+        S, M = hist.shape
+        idx = idx.expand(M) if idx.dim() == 0 else idx
+        h = prev["h"]
+        consume = idx > 0
+        if S:
+            tok = hist.gather(0, (idx - 1).clamp(0, S - 1).unsqueeze(0)).squeeze(0).clamp(0, self.vocab_size - 1)
+        else:
+            tok = torch.zeros(M, dtype=torch.long)
+        h_new = torch.where(consume.unsqueeze(1), torch.tanh(self.E[tok] + h @ self.U), h)
+        return h_new @ self.Wo + self.bo, {"h": h_new}
+
+    def extract_by_src(self, prev, src):
+        return {k: v.index_select(0, src) for k, v in prev.items()}
+
+    def mix_by_mask(self, prev_true, prev_false, mask):
+        return {k: torch.where(mask.unsqueeze(1), prev_true[k], prev_false[k]) for k in prev_true}
